@@ -148,6 +148,9 @@ def real_cases(ctx, rng, nkeys):
                       "verifies": ver == ("ok", True), "zcls": zcls})
         # verification catalogue around the honest tuple
         r0, s0 = sig.r, sig.s
+        # the nonce behind the tuple that was actually returned (up to sign), whatever way it was chosen: the verification oracle
+        # below must not depend on the RFC 6979 clause decided above
+        k = ((z + r0 * d) * pow(s0, -1, N256)) % N256 if 0 < s0 < N256 else k
         d2 = rng.randrange(1, N256)
         cat = [("honest", d, z, r0, s0), ("z+1", d, (z + 1) % 2 ** 256, r0, s0), ("z-1", d, (z - 1) % 2 ** 256, r0, s0),
                ("z+n", d, z + N256 if z + N256 < 2 ** 256 else z - N256 if z >= N256 else z ^ 1, r0, s0),
